@@ -706,6 +706,7 @@ def run_obligation(ob, seed=0, timeout_scale=1.0):
     sample_claims = []
     batch_fail = 0
     npaths_total = 0
+    n_vacuous = 0
     first_specs = None
     try:
         chart_runs = [False]
@@ -740,7 +741,10 @@ def run_obligation(ob, seed=0, timeout_scale=1.0):
                 r = s.check()
                 res['queries'] += 1
                 if r == z3.unsat:
-                    res['errors'].append(f"vacuous path {pi_} ({p.chart})")
+                    # the branch looked feasible (solver said unknown) when it was taken
+                    # but its full constraint set is unsatisfiable: a late-pruned path
+                    res['infeasible_paths'] += 1
+                    n_vacuous += 1
                     continue
                 path_env = None
                 if r == z3.sat:
@@ -882,6 +886,8 @@ def run_obligation(ob, seed=0, timeout_scale=1.0):
                 res['errors'].append(f"path budget {ob.max_paths} exhausted")
         if npaths_total == 0:
             res['errors'].append("no feasible path")
+        elif n_vacuous == npaths_total:
+            res['errors'].append("every explored path is vacuous (contradictory assumptions)")
         res['assumptions'] = sorted(seen_assump)
         res['samples'] = sample_claims
     except PathBudget:
